@@ -12,7 +12,7 @@ OBLIGATIONS = ["maxsum_factor_marginal_partial", "maxsum_select_value_partial", 
                "maxsum_leaf_message_partial", "approx_match_stability0", "suppression_exact_repeat_ok",
                "amaxsum_leafs_silent", "amaxsum_tree_exact_refuted", "maxsum_tree_exact_default_stability_refuted",
                "isolated_variable_initial_value_refuted"]
-N_QUICK, N_THOROUGH = 400, 4000
+N_QUICK, N_THOROUGH = 250, 3000
 PARALLEL = 8
 SHARD = 20
 RULE = ("random forest-shaped factor graphs (85%; 15% with one extra cycle-closing factor, model validation only) "
